@@ -84,11 +84,12 @@ Definition entry_callee (O : gmap uuid obj) (Cn : gmap conn cstate) (K : gmap N 
 (* [X]: the connections that may be named as owners / subscribers / callers.  Between steps and
    at every point of a handler this is [dom conns]; while shutdown_conn removes connection c it
    is [dom conns ∪ {c}]. *)
-Record InvX (X : gset conn) (q : list (N * conn * call_result)) (wa : list (N * conn)) (s : state) : Prop := {
-  iv_reg : reg_so (objs s) (svcs s);
-  iv_uo : uniq_obj (objs s);
+Record InvO (O : gmap uuid obj) (X : gset conn) (q : list (N * conn * call_result)) (wa : list (N * conn))
+    (s : state) : Prop := {
+  iv_reg : reg_so O (svcs s);
+  iv_uo : uniq_obj O;
   iv_us : uniq_svc (svcs s);
-  iv_oo : own_obj X (objs s);
+  iv_oo : own_obj X O;
   iv_ol : own_lis X (listeners s);
   iv_os : own_svc X (svcs s);
   iv_oc : own_chan X (chans s);
@@ -102,12 +103,17 @@ Record InvX (X : gset conn) (q : list (N * conn * call_result)) (wa : list (N * 
   iv_qn : rmq_nodup (conns s) q;
   iv_cl : caller_live wa X (calls s) }.
 
+(* [O]: the objects as far as the services are concerned: [objs s], except while remove_object
+   has deleted the object and is still removing its services *)
+Definition InvX X q wa (s : state) : Prop := InvO (objs s) X q wa s.
 Definition InvW q wa (s : state) : Prop := InvX (dom (conns s)) q wa s.
 
 (* between steps *)
 Definition Inv (s : state) : Prop := InvW [] [] s.
 (* in the middle of a step *)
-Definition MX (X : gset conn) (m : M) : Prop := InvX X (w_rm_call (mw m)) (w_abort (mw m)) (ms m).
+Definition MO (O : gmap uuid obj) (X : gset conn) (m : M) : Prop :=
+  InvO O X (w_rm_call (mw m)) (w_abort (mw m)) (ms m).
+Definition MX (X : gset conn) (m : M) : Prop := MO (objs (ms m)) X m.
 Definition MI (m : M) : Prop := MX (dom (conns (ms m))) m.
 
 (* result of a handler / work item from an [MI] machine: no panic site, [MI] again *)
